@@ -1052,7 +1052,7 @@ _old_collect = TABLE['std::iter::Iterator::collect']
 
 def collect2(I, st, fr, t, a):
     it = a[0]
-    if isinstance(it, Struct) and it.ty in ('$SliceIter', '$Map', '$Filter', '$Cloned'):
+    if isinstance(it, Struct) and it.ty in ('$SliceIter', '$Map', '$Filter', '$Cloned', '$FilterMap', '$Enumerate'):
         try:
             return _old_collect(I, st, fr, t, a)
         except Exception:
@@ -2348,3 +2348,53 @@ for _p in ('std::char::methods::<impl char>::to_ascii_lowercase', 'core::char::m
     TABLE[_p] = _char_case(True)
 for _p in ('std::char::methods::<impl char>::to_ascii_uppercase', 'core::char::methods::<impl char>::to_ascii_uppercase'):
     TABLE[_p] = _char_case(False)
+
+
+# ---- filter_map: the closure decides per item whether (and what) is yielded
+TABLE['std::iter::Iterator::filter_map'] = lazy_adapter('$FilterMap')
+_drain_before_filter_map = drain
+
+
+def _option_leaves(I, v, cond=C1):
+    """[(condition, payload or None)] of an abstract Option value"""
+    if isinstance(v, Ite):
+        return _option_leaves(I, v.a, B.band(cond, v.c)) + _option_leaves(I, v.b, B.band(cond, B.bnot(v.c)))
+    if isinstance(v, Enum):
+        return [(cond, v.fields[0] if v.var == 1 else None)]
+    raise from_undecided()('filter_map closure returned %r' % (v,))
+
+
+def drain4(I, st, it):
+    if isinstance(it, Struct) and it.ty == '$FilterMap':
+        items, st = drain4(I, st, it.fields[0])
+        out = []
+        for x in items:
+            gate = C1
+            base = x
+            while base[0] == 'cond':
+                gate = B.band(gate, base[1])
+                base = base[2]
+            if base[0] != 'elem':
+                raise from_undecided()('filter_map over a symbolic bulk item')
+            r, st = I.call_closure(st, it.fields[1], [base[1]])
+            if st is None:
+                raise from_undecided()('filter_map closure diverges')
+            for c, payload in _option_leaves(I, r):
+                if payload is None:
+                    continue
+                y = I.cond_item(B.band(gate, c), ('elem', payload))
+                if y is not None:
+                    out.append(y)
+        return out, st
+    if isinstance(it, Struct) and it.ty in ('$Map', '$Filter', '$Cloned', '$Enumerate') and isinstance(it.fields[0], Struct) \
+            and it.fields[0].ty == '$FilterMap':
+        items, st = drain4(I, st, it.fields[0])
+        cell = ('static', 'drained:%d' % next(I.frame_counter))
+        st.store[cell] = Seq(items)
+        flat = Struct('$SliceIter', (Ref(cell), 0, 'owned'))
+        return _drain_before_filter_map(I, st, Struct(it.ty, (flat,) + tuple(it.fields[1:])))
+    return _drain_before_filter_map(I, st, it)
+
+
+drain = drain4
+_mod.drain = drain4
